@@ -36,7 +36,8 @@ CLASS_ADAPTEE = ('meta_value', 'meta_none', 'meta_raise_val', 'classmethod_value
 # stage again) before declining
 # 'poplast' / 'clear' = a hook that uninstalls hooks while the hooks are being called
 # 'v_clear' / 'raise_clear' = a hook that empties the list and then answers / raises
-HOOK = ['none', 'v', 'raise', 'falsy', 'nested', 'poplast', 'clear', 'v_clear', 'raise_clear']
+# 'raise_stop' = a hook that raises StopIteration (an exception like any other)
+HOOK = ['none', 'v', 'raise', 'falsy', 'nested', 'poplast', 'clear', 'v_clear', 'raise_clear', 'raise_stop']
 ALT = ['absent', 'value', 'none_pos', 'value_kw', 'none_kw']
 # how the interface gets its __adapt__: the standard one ('std'; 'std+method'
 # = with an unrelated interfacemethod, which also creates a custom metaclass),
@@ -249,6 +250,8 @@ def make_hook(kind, i, I, obj):
                 finally:
                     NESTING.pop()
             return None
+        if kind == 'raise_stop':
+            raise StopIteration('hook%d' % i)
         if kind == 'v':
             return 'H%d' % i
         if kind == 'falsy':
@@ -313,6 +316,8 @@ def expected(conf, provided, hooks, alt, adapt):
                 break
             if h == 'raise':
                 return ('exc', 'Boom', lg)
+            if h == 'raise_stop':
+                return ('exc', 'StopIteration', lg)
     else:
         lg.append('adapt')
         if adapt == 'c_value':
